@@ -40,7 +40,7 @@ def evalE (ρ : VName → Option Val) (ω : Expr → Option Val) (p : Int) : Exp
   | .prefix _ op e => valPrefix op (evalE ρ ω p e) p
   | .switch _ c t f => evalSwitch (evalE ρ ω p c) (evalE ρ ω p t) (evalE ρ ω p f)
   | .var _ v => ρ v
-  | .num _ n => some (.fe n)
+  | .num _ n => some (.fe (n % p))
   | .call a n args => ω (erase (.call a n args))
   | .arr a vals => ω (erase (.arr a vals))
   | .acc a v access => ω (erase (.acc a v access))
